@@ -80,10 +80,10 @@ def limit():
     resource.setrlimit(resource.RLIMIT_AS, (MEM_LIMIT, MEM_LIMIT))
 
 
-def sh(cmd, timeout, cwd=None, inp=None):
+def sh(cmd, timeout, cwd=None, inp=None, rlimit=True):
     t0 = time.time()
     try:
-        p = subprocess.run(cmd, capture_output=True, text=True, timeout=timeout, cwd=cwd, preexec_fn=limit, input=inp)
+        p = subprocess.run(cmd, capture_output=True, text=True, timeout=timeout, cwd=cwd, preexec_fn=limit if rlimit else None, input=inp)
         return p.returncode, p.stdout, p.stderr, time.time() - t0
     except subprocess.TimeoutExpired as e:
         return 124, (e.stdout or b'').decode() if isinstance(e.stdout, bytes) else (e.stdout or ''), 'TIMEOUT', time.time() - t0
@@ -348,7 +348,7 @@ def do_replay(prop, u, o, ctx, outdir):
             if rc != 0:
                 text = 'replay build failed: ' + err[-800:]
             else:
-                rc, out, err, _ = sh([exe] + [str(a) for a in args], 120)
+                rc, out, err, _ = sh([exe] + [str(a) for a in args], 120, rlimit=not u.replay.get('no_rlimit'))
                 text = (out + err)[-1500:]
                 rec['replay_cmd'] = ' '.join(['g++ ... %s -o replay.out &&' % u.replay['prog'], 'replay.out'] + [str(a) for a in args])
                 if rc == 1 or rc < 0 or rc >= 128 or rc == 134:
